@@ -63,6 +63,9 @@ def run(ctx):
                     if t != l["name"] and (tl.get("escalate") or not tl.get("previous")) and [t, t] in ok_pairs:
                         ok_pairs.append([l["name"], t])
         scns.append({"name": dd["name"], "variant": dd["variant"], "pairs": ok_pairs})
+        if any(l.get("auth") for l in dd["levels"]):
+            # the same walk on a device that has no secret configured: authenticated escalations are granted without a question
+            scns.append({"name": dd["name"], "variant": dd["variant"], "pairs": ok_pairs, "grants": True})
     ctx.notes["pairs_whose_outcome_depends_on_map_order_in_the_model"] = order_dependent
     ctx.notes["definitions"] = len(defs)
     res = ctx.run_harness("c17", scns, timeout=1800)
